@@ -184,6 +184,38 @@ def r17_2(prog, rep):
             rep.ok(rid, "%s/stage-arguments" % f.name, f.loc(), "shift(.., rr->shift), clr_poss(.., &rr->pos)")
         else:
             rep.fail(rid, "%s/stage-arguments" % f.name, f.loc(), "shift/clr_poss are not fed rr->shift / rr->pos")
+        # UNTIL bounds the *shifted* dates: inside the expansion loop every test that involves UNTIL lies behind shift()
+        # (a backward SHIFT carries candidates of the year/month after UNTIL back in front of it)
+        if sh:
+            uvars = set()
+            grew = True
+            while grew:
+                grew = False
+                for b, i, x, ln in cfg.all_elems():
+                    for l, kind, nn in writes(x):
+                        rhs = nn.get("init") if kind == "decl" else (nn.get("r") if nn.get("k") == "bin" and nn["op"] == "=" else None)
+                        if rhs is None or strip_casts(l).get("k") != "ref" or lv(l) in uvars:
+                            continue
+                        rr_ = cfg.resolve(rhs)
+                        if any((q.get("k") == "mem" and q.get("f") == "until") or (q.get("k") == "ref" and q.get("n") in uvars) for q in walk(rr_)):
+                            uvars.add(lv(l))
+                            grew = True
+            loops = cfg.natural_loops()
+            inloop = set().union(*[blks for h, blks in loops.items() if sh[0].b in blks]) if loops else set()
+            early = []
+            for b in inloop:
+                c = cfg.cond(b)
+                if c is None:
+                    continue
+                if any((q.get("k") == "ref" and q.get("n") in uvars) or (q.get("k") == "mem" and q.get("f") == "until" and lv(q).endswith("->until"))
+                       for q in walk(c)) and not (cfg.dominates(sh[0].b, b) and b != sh[0].b):
+                    early.append((cfg.blocks[b].elems[-1].get("line"), show(c)[:80]))
+            keyu = "%s/until-tested-behind-shift" % f.name
+            if early:
+                rep.fail(rid, keyu, f.loc(early[0][0]), "`%s` tests UNTIL inside the expansion loop before shift() has run: a date that a backward SHIFT moves "
+                         "in front of UNTIL is cut off (the last legitimate occurrence is lost)" % early[0][1])
+            else:
+                rep.ok(rid, keyu, f.loc(sh[0].line), "inside the expansion loop UNTIL (%s) is only compared behind shift()" % ", ".join(sorted(uvars)) if uvars else "UNTIL is only compared behind shift()")
     if n != 2:
         rep.broken_("rule=R17.2 expected 2 fillers with the poss/shift pipeline, found %d" % n)
     # BYEASTER expansion reached exactly under (gregorian && easter has members)
